@@ -24,7 +24,7 @@ RULE = (
     "merge / single-instance, generated names) or none; instance/global metric lists; decision metric + threshold "
     "(thresholds from an off-grid set incl. 1/3, 1e-5, 0.1+0.2); the three boolean flags. Each component also saved on "
     "its own (matchers, approximator, handler, per-metric handling, label groups, class groups, every enum member), and "
-    "every YAML shipped under panoptica/configs. Oracle: (a) save -> load -> save reproduces the file text; (b) the loaded "
+    "every YAML shipped under panoptica/configs. Evaluators are saved by path under sibling file names that differ in little (cfg.v1/cfg.v2, conf/conf.yaml, x.yml/x.yaml ...) with a different configuration saved next to them, or by name (name resolution pointed at a scratch directory) after a decoy was saved and loaded under the same name; half of them have evaluated a volume and an image before being saved. Oracle: (a) save -> load -> save reproduces the file text; (b) the loaded "
     "object behaves identically on a probe battery built so that each option changes the outcome (2-D and 3-D diagonal "
     "contact, 20 prefix masks with IoU k/20, fragment pair, the four zero-TP scenarios, multi-label maps, two random "
     "pairs): equal results for every group incl. key sets and per-TP lists, equal exception behaviour, equal group "
